@@ -59,6 +59,10 @@ def loop_program(case):
 
 SINGLE = [1, 2, 4, 8, 16]
 ALL_BUT_ONE = [30, 29, 27, 23, 15]
+# every pass once, in isolation, through hook H3 (inlining leaves argument bindings for CCP to substitute,
+# so its isolated build is inlining followed by CCP)
+PASSES = ["pass:ccp", "pass:scalar_replacement", "pass:loop", "pass:cse", "pass:lvn", "pass:dce", "pass:inlining+ccp",
+          "pass:unused_name_elimination"]
 
 
 def run(tier):
@@ -73,7 +77,7 @@ def run(tier):
     # 2. literal-operand programs: optimised (folded) vs unoptimised (computed at run time)
     cases = c04.arith_cases(tier)
     progs = [p for p in c04.arith_programs(cases) if p["kind"] == "fold"]
-    rows = c04.arith_trace(pc.run_programs(d, "fold", progs, [0, 31]))
+    rows = c04.arith_trace(pc.run_programs(d, "fold", progs, [0, 31]))   # opt:0 still folds nothing away: CCP needs inlining to see the literals
     tr = os.path.join(d, "fold-trace.ndjson")
     write_ndjson(tr, rows)
     v = tlc("ArithTrace", "ArithTraceFold.cfg", env={"TRACE": tr}, deque=True, tag="c02at", timeout=1500)
@@ -89,22 +93,25 @@ def run(tier):
     lr = tlc("LoopRules", "LoopRulesMC.cfg", workers=8, timeout=900, tag="c02lr")
     tlc_must_pass(lr, "LoopRules.tla model checking")
     lcases = loop_cases(tier)
-    lrecs = pc.run_programs(d, "loops", [loop_program(c) for c in lcases], [0, 4, 31])
+    lrecs = pc.run_programs(d, "loops", [loop_program(c) for c in lcases], ["raw", 4, 31, "pass:loop"])
     fails += pc.judge_obs(PID, "ObsC02.cfg", lrecs, "c02loops", "counting loops (LoopRules universe at 32 bits)", stats, d)
     # 3. whole programs under many configurations
-    programs = pc.repo_programs()
-    n = 100 if tier == "quick" else 1500
+    repo = pc.repo_programs()
+    programs = repo[1::5] if tier == "quick" else repo[1:]
+    n = 80 if tier == "quick" else 1500
     for prof, share in (("loops", 0.4), ("mixed", 0.3), ("closures", 0.15), ("enums", 0.15)):
         programs += pc.generated_programs(d, max(1, int(n * share)), SEED + 2, prof)
-    builds = [0, 31] + SINGLE + ALL_BUT_ONE if tier == "quick" else list(range(32))
-    recs = pc.run_programs(d, "progs", programs, builds, jobs=12)
+    builds = ["raw", 0, 31] + SINGLE + ALL_BUT_ONE + PASSES if tier == "quick" else ["raw"] + list(range(32)) + PASSES
+    recs = pc.run_programs(d, "progs", programs, builds, jobs=14)
+    # the whole repository test-suite as one program: reference, default and shipped configuration
+    recs += pc.run_programs(d, "alltests", repo[:1], ["raw", 0, 31] if tier == "quick" else ["raw", 0, 8, 23, 31] + PASSES, jobs=1)
     fails += pc.judge_obs(PID, "ObsC02.cfg", recs, "c02", "repository + generated programs", stats, d)
     cen = pc.census(recs)
     coverage = {
         "programs": len(recs), "disagreements_checked": sum(2 * max(0, len(r.get("builds", {})) - 1) for r in recs + lrecs) + len(rows),
         "samples": [{"origin": r["origin"], "builds": sorted(r.get("builds", {}).keys())[:6],
                      "unopt_out": ((r.get("builds", {}).get("opt:0", {}) or {}).get("wasm", {}) or {}).get("out", [])[:4]} for r in recs[-2:]] + rows[:1],
-        "configurations": [f"opt:{b}" for b in builds], "fold_cases": len(rows), "fold_table_states": mc.distinct,
+        "configurations": [b if isinstance(b, str) else f"opt:{b}" for b in builds], "fold_cases": len(rows), "fold_table_states": mc.distinct,
         "loop_rule_states": lr.distinct, "loop_cases_replayed": len(lrecs),
         "census": cen, "trace_states_checked_by_tlc": v.generated + stats.get("tlc_states", 0),
     }
@@ -112,7 +119,7 @@ def run(tier):
                    ["wasm_interp / ts_run observe the artefacts faithfully",
                     "the reference run is the unoptimised build of the same compiler (differential), not an independent semantics",
                     "runs whose unoptimised build overflowed 32 bits or trapped on division are excluded; a build cut off by the verifier's budget is not compared",
-                    "individual passes are exercised through the 5 on/off switches (each alone, each one off, all 32 in the thorough tier), not in isolation below that granularity"],
+                    "the reference is the un-optimised MIR ('raw': optimize_sources skipped); configurations: the 5 switches each alone, each one off, all 32 in the thorough tier; every pass once in isolation through hook H3 (inlining followed by CCP)"],
                    time.time() - t0, fails)
     return 1 if fails else 0
 
@@ -130,5 +137,5 @@ def replay(path):
         return 1 if v.violated else 0
     p = case["case"]["program"]
     p["with_std"] = case["case"].get("with_std", True)
-    recs = pc.run_programs(d, "replay", [p], list(range(32)), jobs=4)
+    recs = pc.run_programs(d, "replay", [p], ["raw"] + list(range(32)) + PASSES, jobs=8)
     return 1 if pc.judge_obs(PID, "ObsC02.cfg", recs, "replay", "replay", {}, d) else 0
